@@ -52,10 +52,8 @@ package coreutils
 //@   ensures b.ParentID == types.BlockID{} ==> result0.Index.Height == 0
 //@ extern consensus.RevertBlock pure
 //@   ensures oneDiffPerIDRevert(result)
-//@ extern consensus.ValidateBlock
-//@   assigns nothing
-//@ extern (*types.Block).V2Transactions
-//@   assigns nothing
+//@ extern consensus.ValidateBlock pure
+//@ extern (*types.Block).V2Transactions pure
 //
 // Currency as a natural number (assumed contracts on go.sia.tech/core/types):
 //@ pred cval(c types.Currency) = c.Hi * 18446744073709551616 + c.Lo
